@@ -270,6 +270,39 @@ pub fn glue_expired_before_ns(u: &Universe, cache: &SharedCache, now: u64, qname
     false
 }
 
+/// Does the cache hold an unexpired NS set for a zone enclosing `qname` none
+/// of whose hosts - wherever they live - has an unexpired address of a usable
+/// family in the cache or the hints?
+pub fn ns_set_without_addresses(u: &Universe, cache: &SharedCache, now: u64, qname: &N, protocol: u8) -> bool {
+    let snap = cache.verif_snapshot();
+    let hints = u.hints_zone();
+    let (use4, use6) = match protocol % 4 {
+        0 => (true, false),
+        3 => (false, true),
+        _ => (true, true),
+    };
+    let usable = |t: RecordType| (t == RecordType::A && use4) || (t == RecordType::AAAA && use6);
+    for z in u.zones.iter().filter(|z| !z.apex.0.is_empty() && qname.is_at_or_below(&z.apex)) {
+        let hosts: Vec<N> = snap
+            .entries
+            .iter()
+            .filter(|e| N::from_domain(&e.0) == z.apex && e.1 == RecordType::NS && e.3 > now)
+            .filter_map(|e| if let RecordTypeWithData::NS { nsdname } = &e.2 { Some(N::from_domain(nsdname)) } else { None })
+            .collect();
+        if hosts.is_empty() {
+            continue;
+        }
+        let held = |h: &N| {
+            snap.entries.iter().any(|e| N::from_domain(&e.0) == *h && usable(e.1) && e.3 > now)
+                || hints.recs.iter().any(|r| r.owner == *h && ((r.rtype == T_A && use4) || (r.rtype == T_AAAA && use6)))
+        };
+        if !hosts.iter().any(held) {
+            return true;
+        }
+    }
+    false
+}
+
 pub struct Sessions;
 
 pub fn hints_zones(u: &Universe) -> Zones {
@@ -294,6 +327,37 @@ impl Prop for Sessions {
             g,
             &UniverseOpts { max_zones: 7, max_depth: 5, multi_address_hosts: true, wildcards: true, aliases: true },
         );
+        let mut universe = universe;
+        // sibling zones served only by a host that lives in the other one; the
+        // parent hands out glue for both, which makes the pair resolvable
+        if g.chance(1, 8) {
+            let z = &universe.zones;
+            let mut pairs = Vec::new();
+            for a in 1..z.len() {
+                for b in a + 1..z.len() {
+                    let (pa, pb) = (z[a].apex.parent(), z[b].apex.parent());
+                    if pa.is_some() && pa == pb && z[a].apex != z[b].apex {
+                        pairs.push((a, b));
+                    }
+                }
+            }
+            if !pairs.is_empty() {
+                let (a, b) = g.pick(&pairs);
+                let (na, nb) = (universe.zones[a].apex.child(b"ns9"), universe.zones[b].apex.child(b"ns9"));
+                let k = universe.hosts.len() as u8;
+                for (i, n) in [na.clone(), nb.clone()].into_iter().enumerate() {
+                    let mut x = [0u8; 16];
+                    x[0] = 0xfd;
+                    x[14] = 9;
+                    x[15] = k + i as u8;
+                    universe.hosts.push(UHost { name: n, v4: vec![[10, 9, k + i as u8, 53]], v6: vec![x] });
+                }
+                universe.zones[a].ns = vec![nb];
+                universe.zones[b].ns = vec![na];
+                universe.zones[a].glue_for_oob = true;
+                universe.zones[b].glue_for_oob = true;
+            }
+        }
         let ok: Vec<u8> = (0..4u8).filter(|p| reachable(&universe, *p)).collect();
         let protocol = g.pick(&ok);
         let questions = gen_questions(g, &universe, 6);
@@ -357,7 +421,30 @@ impl Prop for Sessions {
                         }
                         k += 1;
                     }
-                    let f15 = stuck_at.iter().any(|n| glue_expired_before_ns(u, &cache, now_ns, n, c.protocol));
+                    let mut f15 = stuck_at.iter().any(|n| glue_expired_before_ns(u, &cache, now_ns, n, c.protocol));
+                    // the same root cause with nameservers outside their zone
+                    // (e.g. sibling zones hosting each other): a cached NS set,
+                    // none of whose hosts has a cached address left, of a zone
+                    // the question depends on - and the counterfactual: with the
+                    // cached NS sets dropped (that is, going back to the parents)
+                    // the same question resolves correctly
+                    if !f15 && stuck_at.iter().any(|n| ns_set_without_addresses(u, &cache, now_ns, n, c.protocol)) {
+                        let snap = cache.verif_snapshot();
+                        let fresh = SharedCache::new();
+                        for en in &snap.entries {
+                            if en.1 == RecordType::NS || en.3 <= now_ns {
+                                continue;
+                            }
+                            let ttl = ((en.3 - now_ns) / 1_000_000_000).max(1) as u32;
+                            fresh.insert(&ResourceRecord { name: en.0.clone(), rtype_with_data: en.2.clone(), rclass: RecordClass::IN, ttl });
+                        }
+                        let again = run_resolve(&mock, mode, &zones, &fresh, &to_question(q));
+                        if let Ok(Ok(r2)) = &again.result {
+                            if compare_with_truth(r2, &t).is_ok() {
+                                f15 = true;
+                            }
+                        }
+                    }
                     let sig = if f15 { "glue-expired-before-ns" } else { "resolution-failed" };
                     return out.fail(sig, format!("question {i} ({} {}): {e:?}; authoritative data: {:?}; exchanges: {}", q.name, q.qtype, t, describe(&log)));
                 }
@@ -433,7 +520,7 @@ pub fn def() -> PropertyDef {
     PropertyDef {
         id: "C07",
         level: "exploration",
-        rule: "A generated DNS universe (2..7 zones below root hints, depth <= 5, 1..3 NS hosts per zone, in-bailiwick with glue or out-of-bailiwick in an earlier zone with or without glue, hosts v4-only / v6-only / dual, sometimes two addresses per family, data incl. empty non-terminals, wildcards, CNAMEs inside and across zones, to missing names) is served by a mock transport (hook H2) whose servers answer per RFC 1034 4.3.2 computed by R-ZONE (referrals with glue, AA answers, NODATA/NXDOMAIN with SOA, CNAME with or without in-server chasing, TC over UDP above 512 octets). A case is a session of 1..6 questions (existing and missing names and types, apexes, NS host names, aliases) sharing one cache, with the cache clock (hook H1) advancing 0 s..4000 s between questions so that cached delegations and answers age and expire, in a protocol mode under which every zone is reachable. Oracle: result = ground truth computed globally (alias chain in order ++ final RRset as multiset, TTL <= authoritative, SOA of the final zone iff the final set is empty), and the zones asked about the session's question get strictly deeper (TCP retry at the same server excepted), as do those asked within one attempt at a nameserver-address look-up. Non-trivial = some question needed >= 2 referrals, a glueless NS lookup, an alias chain, or was answered from cache left by an earlier question. Distinct by hash of the case.",
+        rule: "A generated DNS universe (2..7 zones below root hints, depth <= 5, 1..3 NS hosts per zone, in-bailiwick with glue or out-of-bailiwick in an earlier zone with or without glue, one universe in eight with a pair of sibling zones each served only by a host living in the other (glue for both at the parent), hosts v4-only / v6-only / dual, sometimes two addresses per family, data incl. empty non-terminals, wildcards, CNAMEs inside and across zones, to missing names) is served by a mock transport (hook H2) whose servers answer per RFC 1034 4.3.2 computed by R-ZONE (referrals with glue, AA answers, NODATA/NXDOMAIN with SOA, CNAME with or without in-server chasing, TC over UDP above 512 octets). A case is a session of 1..6 questions (existing and missing names and types, apexes, NS host names, aliases) sharing one cache, with the cache clock (hook H1) advancing 0 s..4000 s between questions so that cached delegations and answers age and expire, in a protocol mode under which every zone is reachable. Oracle: result = ground truth computed globally (alias chain in order ++ final RRset as multiset, TTL <= authoritative, SOA of the final zone iff the final set is empty), and the zones asked about the session's question get strictly deeper (TCP retry at the same server excepted), as do those asked within one attempt at a nameserver-address look-up. Non-trivial = some question needed >= 2 referrals, a glueless NS lookup, an alias chain, or was answered from cache left by an earlier question. Distinct by hash of the case.",
         assumptions: vec![
             "consistent universes: parent NS set = child NS set, glue = real address, every server answers",
             "CNAME and ANY questions at alias names are outside the comparison (D4)",
